@@ -61,10 +61,10 @@ def main(argv):
         ck.coq_gates(["Base", "C33"], THEOREMS, "EV.C33.Props")
     if bins:
         if ok or os.path.exists(os.path.join(COQ, "theories/C33/Corr.vo")):
-            module_correspondence(ck, bins["c33"], ck.scale(300, 4000))
+            module_correspondence(ck, bins["c33"], ck.scale(200, 4000))
         if ck.broken:
             ck.deep = True
-        search(ck, bins["c33"], ck.scale(1500, 40000))
+        search(ck, bins["c33"], ck.scale(1200, 40000))
     ck.finish(
         trusted_base=TRUSTED,
         rule="correspondence: op sequences (add by path / add by module path / remove / hide / clear / find, 4-17 ops, 2-6 files) over 8 pattern sets x "
